@@ -49,6 +49,9 @@ def check(m, run):
     run.floor('AG1.keys', 25, 'mandatory keys of the five dict pairs')
     run.floor('AG2.record-table', 14, 'header fields of smesh (7) and vmesh (10)')
     run.floor('WV1.weight-form', 4, 'two writers, two readers')
+    # an imported rational shape reports the weights of the file: setting control points clears the cached rational views
+    from .. import rules_state as _rs
+    _rs.iv1(m, run, [('NURBS', 'Curve'), ('NURBS', 'Surface'), ('NURBS', 'Volume')], caches_filter=lambda c: c in ("_cache['ctrlpts']", "_cache['weights']"))
 
 
 def aggregate_after_loop(m, run):
